@@ -1,0 +1,9 @@
+//go:build verif
+
+// Machine-checked contracts (read by /verif/bin/fsv; comment-only, guarded by the verif tag).
+
+package internal
+
+//@ func FailureResult
+//@   ensures [C01.failureresult] fresh(result) && result.Error == err && result.Result == zeroval() && result.Done && !result.Success && !result.SuccessAll
+//@   modifies nothing
